@@ -470,15 +470,114 @@ def k3_pool(chk):
     return n, len(distinct), {'literals': ['%s"%s"' % x for x in cases[7]]}
 
 
+# ---------------------------------------------------------------------------
+# K3 for the macro table (the third client of map.c): every history of definitions, removals and uses of two names
+
+MDEFS = {'o1': ('obj', '#define %s 11', ['11']), 'o2': ('obj', '#define %s 22', ['22']), 'f3': ('fn', '#define %s(x) 33', ['33'])}
+
+
+def macro_model(hist):
+    """returns ('reject', None) or ('ok', expected token spellings of the text lines)"""
+    table, out = {}, []
+    for ev in hist:
+        if ev[0] == 'def':
+            if ev[1] in table and table[ev[1]] != ev[2]:
+                return ('reject', None)         # 6.10.3p2: redefinition that is not identical
+            table[ev[1]] = ev[2]
+        elif ev[0] == 'undef':
+            table.pop(ev[1], None)
+        else:
+            d = table.get(ev[1])
+            call = ev[0] == 'call'
+            if d is None:
+                out += [ev[1]] + (['(', '0', ')'] if call else []) + [';']
+            elif MDEFS[d][0] == 'obj':
+                out += MDEFS[d][2] + (['(', '0', ')'] if call else []) + [';']
+            else:
+                out += (MDEFS[d][2] if call else [ev[1]]) + [';']
+    return ('ok', out)
+
+
+def macro_render(hist):
+    lines = []
+    for ev in hist:
+        if ev[0] == 'def':
+            lines.append(MDEFS[ev[2]][1] % ev[1])
+        elif ev[0] == 'undef':
+            lines.append('#undef ' + ev[1])
+        elif ev[0] == 'use':
+            lines.append(ev[1] + ' ;')
+        else:
+            lines.append(ev[1] + '(0) ;')
+    return ('\n'.join(lines) + '\n').encode()
+
+
+def macro_events(names):
+    ev = []
+    for n in names:
+        ev += [('def', n, 'o1'), ('def', n, 'o2'), ('def', n, 'f3'), ('undef', n), ('use', n), ('call', n)]
+    return ev
+
+
+def _macro_job(hists):
+    from .. import clex
+    srv = fs.server('fs')
+    out = []
+    for h in hists:
+        verdict, exp = macro_model(h)
+        r = srv.run(['-E'], macro_render(h), 0, 5)
+        if verdict == 'reject':
+            out.append((h, None if r.status == 1 else 'accepted a redefinition that is not identical (status %s)' % r.status))
+            continue
+        if r.status != 0:
+            out.append((h, 'rejected (status %s): %s' % (r.status, r.err[:100].decode('latin-1'))))
+            continue
+        got = [sp for _, sp in clex.tokens(r.out.decode('latin-1'))]
+        out.append((h, None if got == exp else 'expected %r, got %r' % (' '.join(exp), ' '.join(got))))
+    return out
+
+
+def k3_macros(chk):
+    names2 = ('a', 'b')
+    # 'a' and 'i' etc. are also spelled like declared identifiers elsewhere; the macro table must not care. Names of different length and a
+    # name that is a keyword spelling exercise the key comparison (length + bytes)
+    plans = [(names2, 3), (('a',), 4), (('a', 'ab'), 3), (('int', 'in'), 2)] if chk.quick else [(names2, 4), (('a',), 6), (('a', 'ab'), 4), (('int', 'in'), 3), (('a', 'b', 'c'), 3)]
+    hs, seen = [], set()
+    for names, n in plans:
+        evs = macro_events(names)
+        for k in range(1, n + 1):
+            for h in itertools.product(evs, repeat=k):
+                if any(e[0] in ('use', 'call') for e in h) or any(e[0] == 'def' for e in h[1:]):
+                    if h not in seen:
+                        seen.add(h)
+                        hs.append(h)
+    n = nrej = 0
+    sample = None
+    for res in fs.pimap(_macro_job, [hs[i:i + 300] for i in range(0, len(hs), 300)]):
+        for h, bad in res:
+            n += 1
+            if macro_model(h)[0] == 'reject':
+                nrej += 1
+            if sample is None and len(h) == 3 and macro_model(h)[0] == 'ok':
+                sample = {'history': [list(e) for e in h], 'expected_tokens': macro_model(h)[1]}
+            if bad:
+                kind = 'accepted-redefinition' if bad.startswith('accepted') else 'rejected-valid' if bad.startswith('rejected') else 'wrong-binding'
+                chk.violation('K3/macros/' + kind, 'macro history %r: %s' % (macro_render(h).decode(), bad), files={'input.c': macro_render(h)}, cmd='$CPROC_QBE -E input.c')
+    return n, nrej, sample
+
+
 def main(chk):
     tot, runs, samples = k1(chk)
     st, ssamples = k3_scoping(chk) if chk.want('scoping') else ({'evaluations': 0, 'expected_reject': 0, 'with_uses': 0, 'ambiguous': 0, 'handed_to_c10': 0}, [])
     npool, dpool, psample = k3_pool(chk) if chk.want('pool') else (0, 0, {})
+    nmac, nmacrej, msample = k3_macros(chk) if chk.want('macros') else (0, 0, None)
     cov = {
         'states': tot['states'],
         'transitions': tot['transitions'],
-        'traces_validated_against_impl': tot['states'] + st['evaluations'] + npool,
-        'samples': samples + ssamples + [psample],
+        'traces_validated_against_impl': tot['states'] + st['evaluations'] + npool + nmac,
+        'samples': samples + ssamples + [psample] + ([msample] if msample else []),
+        'macro_histories': nmac,
+        'macro_histories_expected_reject': nmacrej,
         'map_gets_checked': tot['gets_checked'],
         'map_growths': tot['growths'],
         'map_clears': tot['frees'],
@@ -492,7 +591,8 @@ def main(chk):
         'stringpool_cases_clean': dpool,
         'rule': 'K1: BFS over put/overwrite/clear histories on the real map.c with forged colliding hashes, exact table dedup; '
                 'K3: every well-bracketed scoping history up to the length bound compiled and compared with scoperef; '
-                'every ordered pair (thorough: triple) of string literals over the alphabet',
+                'every ordered pair (thorough: triple) of string literals over the alphabet; every history of #define (two object-like bodies, one '
+                'function-like) / #undef / use / call events over two names up to the length bound, -E token sequence compared with a dictionary model',
     }
     return chk.finish(cov, [
         'mapmc links the unmodified map.c/util.c; initial capacities 4, 8 (16): capacities 1 and 2 are excluded because a full table '
